@@ -13,10 +13,10 @@ func genReader(c *Ctx) string {
 	b.WriteString(genHeader)
 	b.WriteString("\n")
 	type arm struct {
-		marker             string
-		label              string
-		typeIdx, fieldIdx  int
-		validates          bool
+		marker            string
+		label             string
+		typeIdx, fieldIdx int
+		validates         bool
 	}
 	var arms []arm
 	ok := true
